@@ -4,6 +4,8 @@ package main
 //
 //	{Kind: "func", Name: "Recv.Method" | "Func"}
 //	{Kind: "var", Name: "table"}                      package-level table with constant elements
+//	{Kind: "const", Name: "MesgDefinitionMask"}        package-level constant (value computed by go/types)
+//	{Kind: "cond", Name: <Lean name>, Func: "Recv.Method", Anchor: <text the condition contains>, Occur: n}
 //	{Kind: "methodset", Name: "crc16", Methods: "Write Sum16 …"}   the type has exactly these methods
 //	{Kind: "block", Name: <Lean name>, Func: "Recv.Method", Anchor: "d.lastTimeOffset", Occur: n, Up: k}
 type Item struct {
@@ -43,5 +45,27 @@ var units = []Unit{
 		{Kind: "func", Name: "BaseType.String"},
 		{Kind: "func", Name: "BaseType.GoType"},
 		{Kind: "func", Name: "List"},
+	}},
+	{Name: "proto", Dir: "proto", Items: []Item{
+		{Kind: "const", Name: "MesgDefinitionMask"},
+		{Kind: "const", Name: "MesgNormalHeaderMask"},
+		{Kind: "const", Name: "MesgCompressedHeaderMask"},
+		{Kind: "const", Name: "LocalMesgNumMask"},
+		{Kind: "const", Name: "CompressedLocalMesgNumMask"},
+		{Kind: "const", Name: "CompressedTimeMask"},
+		{Kind: "const", Name: "DevDataMask"},
+		{Kind: "const", Name: "CompressedBitShift"},
+		{Kind: "const", Name: "FieldNumTimestamp"},
+		{Kind: "const", Name: "DefaultFileHeaderSize"},
+		{Kind: "const", Name: "V1"},
+		{Kind: "const", Name: "V2"},
+		{Kind: "func", Name: "LocalMesgNum"},
+		{Kind: "func", Name: "CreateVersion"},
+		{Kind: "func", Name: "Version.Major"},
+		{Kind: "func", Name: "Version.Minor"},
+		{Kind: "cond", Name: "ValidateMessageDefinition_isV1", Func: "Validator.ValidateMessageDefinition", Anchor: "p.ProtocolVersion"},
+		{Kind: "cond", Name: "ValidateMessageDefinition_afterV1", Func: "Validator.ValidateMessageDefinition", Anchor: "BaseTypeNumMask"},
+		{Kind: "cond", Name: "ValidateMessage_isV1", Func: "Validator.ValidateMessage", Anchor: "p.ProtocolVersion"},
+		{Kind: "cond", Name: "ValidateMessage_afterV1", Func: "Validator.ValidateMessage", Anchor: "BaseTypeNumMask"},
 	}},
 }
